@@ -45,8 +45,9 @@
        C20_idle_characterisation_requested_false.  The CS_IDLE row therefore also requires
        [k_hold = true -> equal k_hold_exit]: C20_idle_row_exact, C20_idle_characterisation_partial.
 
-   Second half: the line ending mirrors the request (C20_newline_choice, C20_cr_in_idle_ignored,
-   C20_cr_recorded, C20_reset_state_clears). *)
+   Second half: the line ending mirrors the request (C20_newline_choice, C20_newline_choice_u,
+   C20_cr_in_idle_ignored, C20_cr_recorded, C20_reset_state_clears, and "exactly":
+   C20_cr_event_machine_preserves, C20_cr_changes_command_machine, C20_cr_other_ops_preserve). *)
 From Coq Require Import List NArith ZArith Bool Arith.
 From CatV Require Import Bytes Defs Codec Fsm Script Lemmas_C20.
 Import ListNotations.
@@ -242,6 +243,31 @@ Theorem C20_cr_recorded : forall (w : world) io',
   (mkWorld (setk_cr true (setk_char ch_CR (st w))) io' (mu w) (hs w) (ERd (Some ch_CR) :: tr w), ST_BUSY).
 Proof. exact (Lemmas_C20.cr_recorded D ioS muS hS io_read io_write mu_lock mu_unlock h_call). Qed.
 
+(* k_cr is set EXACTLY by a CR read in a non-IDLE reading state and cleared EXACTLY by reset_state:
+   (A) the event machine never changes it; (B) one step of the command machine leaves it unchanged,
+   or sets it while reading a CR (as the machine sees the byte: upper-cased except in
+   CS_PARSE_COMMAND_ARGS) in one of the six reading states, or clears it in CS_AFTER_RESET on the
+   way to CS_IDLE; (C) no other public operation changes it.  (cat_service = lock; (A) then (B); unlock.) *)
+Theorem C20_cr_event_machine_preserves : forall w : world,
+  k_cr (k (st (fst (Fsm.unsolicited_events_service D ioS muS hS io_write mu_lock mu_unlock h_call w)))) =
+  k_cr (k (st w)).
+Proof. exact (Lemmas_C20.ues_cr D ioS muS hS io_write mu_lock mu_unlock h_call). Qed.
+
+Theorem C20_cr_changes_command_machine : forall w : world,
+  let w' := fst (cmd_service w) in
+  k_cr (k (st w')) = k_cr (k (st w)) \/
+  (k_cr (k (st w')) = true /\
+   In (k_state (k (st w)))
+      [CS_ERROR; CS_PARSE_PREFIX; CS_PARSE_COMMAND_CHAR; CS_WAIT_READ_ACK; CS_WAIT_TEST_ACK; CS_PARSE_COMMAND_ARGS] /\
+   exists io' c, io_read (io w) = (io', Some c) /\
+     (if cstate_beq (k_state (k (st w))) CS_PARSE_COMMAND_ARGS then c else to_upper c) = ch_CR) \/
+  (k_cr (k (st w')) = false /\ k_state (k (st w)) = CS_AFTER_RESET /\ k_state (k (st w')) = CS_IDLE).
+Proof. exact (Lemmas_C20.cmd_service_cr D ioS muS hS io_read io_write mu_lock mu_unlock h_call). Qed.
+
+Theorem C20_cr_other_ops_preserve : forall (w : world) o, o <> OService ->
+  k_cr (k (st (fst (Fsm.do_op D ioS muS hS io_read io_write mu_lock mu_unlock h_call w o)))) = k_cr (k (st w)).
+Proof. exact (Lemmas_C20.other_ops_cr D ioS muS hS io_read io_write mu_lock mu_unlock h_call). Qed.
+
 End C20.
 
 Print Assumptions C20_idle_row_exact.
@@ -266,3 +292,6 @@ Print Assumptions C20_fresh_vs_used.
 Print Assumptions C20_fresh_vs_used_partial.
 Print Assumptions C20_cr_in_idle_ignored.
 Print Assumptions C20_cr_recorded.
+Print Assumptions C20_cr_event_machine_preserves.
+Print Assumptions C20_cr_changes_command_machine.
+Print Assumptions C20_cr_other_ops_preserve.
